@@ -9,7 +9,7 @@
    Part 2: soundness of the certificate checker that is evaluated on every observed
    Network.from_units result. *)
 From Coq Require Import Permutation Relations.
-From V Require Import C19.Model C19.Proofs C19.ProofsSurgery.
+From V Require Import C19.Model C19.Proofs C19.ProofsSurgery C19.ProofsPaths.
 Local Open Scope nat_scope.
 
 (* the sorted path is a permutation of the input path (no hypothesis on reach: also on cyclic paths) *)
@@ -277,4 +277,44 @@ Example C19_surgery_nonvacuous :
   let s := NN [NU 1; NN [NU 0; NU 2] [4] [0; 2]] [] [0; 1; 2] in
   let n := NN [NU 1; NU 0] [0] [0; 1] in
   join_recycle es all [] 20 s n = Some (NN [NN [NU 1; NU 0; NU 2] [4; 0] [0; 2; 1]] [] [0; 1; 2]).
+Proof. vm_compute. reflexivity. Qed.
+
+(* ---- part 6: path finding (model of fill_path, path_with_recycle_to_cyclic_path_with_recycle and
+   simplified_linear_paths; tied to the code by comparing the fragments, loops and `ends` returned by
+   every find_linear_and_cyclic_paths_with_recycle call).  For every list of walked paths: *)
+(* the linear fragments never share or repeat a unit *)
+Theorem C19_linear_fragments_once : forall paths,
+  Forall (@NoDup nat) paths -> NoDup (concat (simplified paths)).
+Proof. exact simplified_nodup. Qed.
+Print Assumptions C19_linear_fragments_once.
+
+(* they hold exactly the units of the walked paths *)
+Theorem C19_linear_fragments_units : forall paths u,
+  In u (concat (simplified paths)) <-> In u (concat paths).
+Proof. exact simplified_units. Qed.
+Print Assumptions C19_linear_fragments_units.
+
+(* the first fragment, the base network that from_feedstock extends, is a longest walked path kept whole
+   (so it starts at the unit the feedstock enters) *)
+Theorem C19_linear_fragments_longest_first : forall paths, paths <> [] ->
+  let L := last (sort_len_asc paths) [] in
+  L <> [] ->
+  hd [] (simplified paths) = L /\ In L paths /\ forall p, In p paths -> length p <= length L.
+Proof. exact simplified_head. Qed.
+Print Assumptions C19_linear_fragments_longest_first.
+
+(* for every stream graph, feedstock and `ends`: what from_feedstock starts from are linear fragments that
+   never share or repeat a unit and loops without a repeated unit *)
+Theorem C19_find_paths_once : forall all feed ends lin cyc ends',
+  find_paths all feed ends = (lin, cyc, ends') ->
+  NoDup (concat lin) /\ Forall (fun pr => NoDup (fst pr)) cyc.
+Proof. exact find_paths_once. Qed.
+Print Assumptions C19_find_paths_once.
+
+(* a loop 0 -> (1 -> 2 | 3 -> 4 -> 5, 3 -> 5, 4 -> 6 -> product) -> 7 -> 0, feed at 0: three fragments,
+   the longest first; the loop path follows the first outlets *)
+Example C19_find_paths_nonvacuous :
+  let all := [(0, 0, 1); (1, 0, 3); (2, 1, 2); (3, 2, 7); (4, 3, 4); (5, 3, 5); (6, 4, 6); (7, 4, 5); (8, 5, 7);
+              (9, 6, nounit); (10, 7, 0); (11, nounit, 0)] in
+  find_paths all (11, nounit, 0) [9] = ([[0; 3; 4; 5; 7]; [1; 2]; [6]], [([0; 3; 5; 7], 10)], [9; 10]).
 Proof. vm_compute. reflexivity. Qed.
